@@ -46,7 +46,12 @@ const ASI = [
   'function f(a, b) { return a?.b\n.trim() + a?.[b]\n?.trim() }',
   'function f(a, b) { with (a) { return b + trim() } }',
   'function f(a, b) { return a < b > a + b, a <!--b\n, a --> b }'.replace(', a <!--b\n, a --> b', ''),
-  'var f = function (a) { return a + 1 }, g = (a) => a + 2, h = async a => a + 3'
+  'var f = function (a) { return a + 1 }, g = (a) => a + 2, h = async a => a + 3',
+  'function load(urls, v, get) { return Promise.all(urls.map(async (u) => await get(u) + "?v=" + v)) }',
+  'function f(a) { return { async m() { return await a + 1 }, async *g() { yield await a + 1 }, h: async function () { return `${await a}` } } }',
+  'function f(a) { const g = async () => (await a).trim(); return async x => { for await (const y of x) a += y; return a } }',
+  'function* f(a) { const g = function* () { yield a + 1 }; return (yield* g()) + (yield a) }',
+  'function f(a, b) { return class extends (a + b) { static async *[a + b]() { yield* [await a + b] } } }'
 ]
 
 async function check (job, resp, reparse) {
